@@ -452,6 +452,18 @@ fn sem_mutviews() -> Option<String> {
     let mut flat: GenericArray<u32, U6> = GenericArray::generate(|_| 0);
     let fb = flat.as_mut_ptr() as usize;
     { let u: &mut GenericArray<GenericArray<u32, U2>, U3> = (&mut flat).unflatten(); if u.as_ptr() as usize != fb || u.len() != 3 { return Some("unflatten(&mut): not the same storage".into()); } }
+    // empty shapes must not panic either
+    let r = catch_unwind(AssertUnwindSafe(|| {
+        let mut e0: GenericArray<u32, U0> = GenericArray::generate(|_| 0);
+        let u: &mut GenericArray<GenericArray<u32, U2>, U0> = (&mut e0).unflatten();
+        let l1 = u.len();
+        let mut n0: GenericArray<GenericArray<u32, U2>, U0> = GenericArray::generate(|_| GenericArray::generate(|_| 0));
+        let f: &mut GenericArray<u32, U0> = (&mut n0).flatten();
+        let mut z0: GenericArray<GenericArray<u32, U0>, U3> = GenericArray::generate(|_| GenericArray::generate(|_| 0));
+        let f2: &mut GenericArray<u32, U0> = (&mut z0).flatten();
+        l1 + f.len() + f2.len()
+    }));
+    match r { Err(_) => return Some("flatten / unflatten of an empty `&mut` array panicked".into()), Ok(k) if k != 0 => return Some("empty flatten / unflatten views are not empty".into()), _ => {} }
     let mut n = [0u32; 4];
     let nb2 = n.as_mut_ptr() as usize;
     { let g: &mut GenericArray<u32, U4> = (&mut n).into(); if g.as_ptr() as usize != nb2 { return Some("From<&mut [T; N]>: not the same storage".into()); } }
@@ -463,7 +475,13 @@ fn sem_mutviews() -> Option<String> {
 }
 fn semantic(sc: &str) -> Option<String> {
     if sc.starts_with("hex") { return sem_hex(); }
-    if sc.starts_with("mutprov") { return sem_mutviews(); }
+    if sc.starts_with("mutprov") {
+        let quiet = std::panic::take_hook();
+        std::panic::set_hook(Box::new(|_| {}));
+        let r = sem_mutviews();
+        std::panic::set_hook(quiet);
+        return r;
+    }
     if let Some(op) = sc.strip_prefix("order.") {
         let quiet = std::panic::take_hook();
         std::panic::set_hook(Box::new(|_| {}));
@@ -672,6 +690,23 @@ fn mutprov() {
     assert!(flat[..2].iter().all(|x| *x == 18) && flat[2..].iter().all(|x| *x == 19));
     { let (h, t): (&mut GenericArray<u32, U6>, &mut GenericArray<u32, U0>) = Split::<u32, U6>::split(&mut flat); fill!(h, 20); assert!(t.is_empty()); }
     assert!(flat.iter().all(|x| *x == 20));
+    // the fallible reinterpretations with every wrong length: no reference to a whole array may even be *created* over too few elements
+    let mut w = [0u32; 6];
+    for l in [0usize, 1, 3, 5, 6] {
+        assert!(<&mut GenericArray<u32, U4>>::try_from(&mut w[..l]).is_err());
+        assert!(<&GenericArray<u32, U4>>::try_from(&w[..l]).is_err());
+        assert!(GenericArray::<u32, U4>::try_from_mut_slice(&mut w[..l]).is_err());
+        assert!(GenericArray::<u32, U4>::try_from_slice(&w[..l]).is_err());
+    }
+    // ... including slices that end with their allocation (a longer reference would be dangling)
+    assert!(<&mut GenericArray<u32, U4>>::try_from(&mut w[4..]).is_err());
+    assert!(<&mut GenericArray<u32, U4>>::try_from(&mut w[6..]).is_err());
+    assert!(GenericArray::<u32, U4>::try_from_mut_slice(&mut w[5..]).is_err());
+    assert!(GenericArray::<u32, U4>::try_from_slice(&w[3..]).is_err());
+    let mut one = vec![7u32];
+    assert!(<&mut GenericArray<u32, U4>>::try_from(&mut one[..]).is_err());
+    assert!(<&GenericArray<u32, U4>>::try_from(&one[..]).is_err());
+    assert!(<&mut GenericArray<u32, U4>>::try_from(&mut w[1..5]).is_ok());
     println!("mutprov: every mutable view accepted the writes");
 }
 
